@@ -103,6 +103,47 @@ def register(R):
                'len(self.data) == 0'],
       bounded='bounded_lru'))
 
+  # ---- the caching wrapper of result_ (closure of _maybe_lru_cache: free variables lazy_obj_cache, fn) ----
+  LF = 'ml_metrics/_src/chainables/lazy_fns.py'
+  R.cls('LazyObject', dict(value='obj', _cache_result='bool', _lazy_result='bool', _id='int'), frozen=True)
+  R.cls('LazyFn', dict(value='obj', _cache_result='bool', _lazy_result='bool', _id='int'), frozen=True)
+
+  @R.spec
+  def app(it, a, k):              # the value the wrapped (uninterpreted) function returns for x
+    from pyvc.calls import opaque_call
+    f, x = a
+    fn_ = opaque_call.get(1)
+    if fn_ is None:
+      fn_ = z3.Function('apply1', Obj, Obj, Obj)
+      opaque_call[1] = fn_
+    return VOpaque(fn_(it.to_obj(f), it.to_obj(x)))
+
+  @R.spec
+  def fn_calls(it, a, k):         # how often the wrapped function was evaluated during this call
+    return VInt(sum(1 for e in it.events if e[0] == 'callfn'))
+
+  CW = ['lazy_obj_cache.currsize == len(lazy_obj_cache.data)', 'lazy_obj_cache.currsize >= 0', 'lru_wf(lazy_obj_cache.data)',
+        'lazy_obj_cache.maxsize >= 1', 'lazy_obj_cache.currsize <= lazy_obj_cache.maxsize']
+  for cls_, variant in (('LazyFn', 'traced-call'), ('LazyObject', 'held-object')):
+    missing = {'LazyObjectMissingError': 'x._cache_result and x not in lazy_obj_cache.data'} if cls_ == 'LazyObject' else {}
+    R.add(Contract(
+        f'{LF}::_maybe_lru_cache.decorator.wrapped_fn', P, variant=variant,
+        types=dict(x=cls_), ret='obj', ghost=dict(lazy_obj_cache='LruCache', fn='obj'),
+        requires=CW,
+        raises=missing,
+        ensures=[
+            # a cached call that hits returns the IDENTICAL stored object without evaluating again
+            'implies(x._cache_result and old(x in lazy_obj_cache.data), result is old(value_of(lazy_obj_cache.data, x)) and fn_calls() == 0)',
+            # a cached call that misses evaluates exactly once and stores that result
+            'implies(x._cache_result and not old(x in lazy_obj_cache.data), fn_calls() == 1 and result is app(fn, x)'
+            ' and x in lazy_obj_cache.data and value_of(lazy_obj_cache.data, x) is result)',
+            # without caching every materialisation evaluates afresh and the cache is not touched
+            'implies(not x._cache_result, fn_calls() == 1 and result is app(fn, x)'
+            " and forall(lambda k: (k in lazy_obj_cache.data) == old(k in lazy_obj_cache.data), 'obj'))",
+        ],
+        bounded='bounded_lazy_eval',
+        note='dereferencing a held object that is no longer in the cache raises the dedicated missing-object error, never a stale value'))
+
   R.bounded_checks[P] = [
       ('bounded_lru', 'LruCache get/set/clear histories vs reference LRU (small scope)'),
       ('bounded_lazy_eval', 'traced expression trees evaluate to the eager value, also after pickling; cache identity; missing-object error'),
